@@ -83,8 +83,13 @@ func runCheck(repo, verifDir, prop, tier, evidence string, timeout int, verbose 
 		}
 	}
 	sort.Strings(keys)
+	var trustedFns []string
 	for _, k := range keys {
 		fc := p.CS.Funcs[k]
+		if fc.Trusted != "" {
+			trustedFns = append(trustedFns, fc.Pkg+"."+fc.Name+": "+fc.Trusted)
+			continue
+		}
 		res := p.VerifyFunc(fc)
 		run.results = append(run.results, res)
 	}
@@ -284,6 +289,9 @@ func runCheck(repo, verifDir, prop, tier, evidence string, timeout int, verbose 
 	}
 	for _, e := range externs {
 		trusted = append(trusted, "extern contract (assumed): "+e)
+	}
+	for _, t := range trustedFns {
+		assumptions = append(assumptions, "trusted (not verified) "+t)
 	}
 	assumptions = append(assumptions, p.CS.RawScan...)
 	level := "proof"
